@@ -74,8 +74,20 @@ static int op_mul(int c, tok_t *a, out_t *o) { return do3(mpz_mul, c, a, o); }
 static int op_tdiv_q(int c, tok_t *a, out_t *o) { return do3g(mpz_tdiv_q, c, a, o); }
 static int op_tdiv_r(int c, tok_t *a, out_t *o) { return do3g(mpz_tdiv_r, c, a, o); }
 
+/* as4_mpf_urandomb seed prec_bits nbits: Mersenne Twister seeded with `seed`, destination of mpf_init2 (prec_bits) (a block of exactly
+   PREC + 1 limbs from the recording allocator: a store past it damages the red zone); output PREC + 1, SIZ, EXP, the limbs */
+static int op_mpf_urandomb(int argc, tok_t *a, out_t *o) {
+  NEED(argc == 3 && ISUI(0) && ISUI(1) && ISUI(2));
+  unsigned long pb = tok_ulong(&a[1]), nb = tok_ulong(&a[2]); NEED(pb < (1UL << 20) && nb < (1UL << 20));
+  gmp_randstate_t st; gmp_randinit_default(st); gmp_randseed_ui(st, tok_ulong(&a[0]));
+  mpf_t f; mpf_init2(f, pb);
+  mpf_urandomb(f, st, nb);
+  out_long(o, PREC(f) + 1); out_mpf(o, f);
+  mpf_clear(f); gmp_randclear(st); return 0;
+}
+
 const opdef_t ops_allocsafe4[] = {
   {"as4_addmul_ui", op_addmul_ui}, {"as4_submul_ui", op_submul_ui},
-  {"as4_addmul", op_addmul}, {"as4_submul", op_submul}, {"as4_mul", op_mul}, {"as4_tdiv_q", op_tdiv_q}, {"as4_tdiv_r", op_tdiv_r},
+  {"as4_addmul", op_addmul}, {"as4_submul", op_submul}, {"as4_mul", op_mul}, {"as4_mpf_urandomb", op_mpf_urandomb}, {"as4_tdiv_q", op_tdiv_q}, {"as4_tdiv_r", op_tdiv_r},
   {0, 0}
 };
